@@ -1,6 +1,10 @@
 // ---- shims for U-LOADPKG (C16): packages::load_package ----
 #[verifier::external_body] pub struct PathBuf { _p: u64 }
-#[verifier::external_body] pub struct CompilationError { _p: u64 }
+// pipeline::CompilationError (extracted above): a Parser error carries diagnostics whose ranges are OFFSETS into the text of the file that
+// was parsed; a Compile error (compile_error(..)) is a message without a range
+// C12 (every position of a diagnostic lies within the text it is shown against): the drivers render Parser diagnostics against the ENTRY
+// file's text, so a function that parses OTHER files must not let a Parser error out — it resolves the positions itself
+pub open spec fn no_foreign_positions<T>(r: Result<T, CompilationError>) -> bool { r matches Err(e) ==> !(e is Parser) }
 #[verifier::external_body] pub struct AstRest { _p: u64 }
 #[verifier::external_body]
 #[verifier::reject_recursive_types(K)]
@@ -23,11 +27,11 @@ impl PathBuf {
 pub open spec fn entry_once(files: Seq<SourceFileAst>, n0: int, entry_path: Option<&PathBuf>) -> bool {
     entry_path matches Some(e) ==> forall|i: int| n0 <= i < files.len() ==> (#[trigger] files[i]).path.fname() != e.fname()
 }
-#[verifier::external_body] pub fn compile_error(m: String) -> (r: CompilationError) { unimplemented!() }
+#[verifier::external_body] pub fn compile_error(m: String) -> (r: CompilationError) ensures r is Compile { unimplemented!() }
 #[verifier::external_body] pub fn rt_msg() -> (r: String) { unimplemented!() }
 #[verifier::external_body] pub fn string_clone(a: &String) -> (r: String) ensures r@ == a@ { unimplemented!() }
 #[verifier::external_body] pub fn string_ne(a: &String, b: &String) -> (r: bool) ensures r == (a@ != b@) { unimplemented!() }
-#[verifier::external_body] pub fn fs_read_to_string(p: &PathBuf) -> (r: Result<String, CompilationError>) { unimplemented!() }   // fs::read_to_string(..).map_err(..)
+#[verifier::external_body] pub fn fs_read_to_string(p: &PathBuf) -> (r: Result<String, CompilationError>) ensures r matches Err(e) ==> e is Compile { unimplemented!() }   // fs::read_to_string(..).map_err(..)
 #[verifier::external_body] pub fn parse_ast_file(p: &PathBuf, src: &String) -> (r: Result<AstFile, CompilationError>) { unimplemented!() }
 #[verifier::external_body] pub fn collect_imports(files: &Vec<SourceFileAst>) -> (r: HashSet<String>) { unimplemented!() }
 #[verifier::external_body] pub fn entry_is(entry_path: Option<&PathBuf>, path: &PathBuf) -> (r: bool) { unimplemented!() }        // entry_path.is_some_and(|entry| entry == path)
@@ -40,9 +44,9 @@ pub open spec fn one_package(u: PackageUnit) -> bool {
 // ---- read_gom_sources: the order of a package's files must not depend on the directory's enumeration order (C13) ----
 #[verifier::external_body] pub struct ReadDir { _p: u64 }          // fs::ReadDir: entries in an OS-dependent order
 #[verifier::external_body] pub struct DirEntry { _p: u64 }
-impl ReadDir { #[verifier::external_body] pub fn next_entry(&mut self) -> (r: Option<Result<DirEntry, CompilationError>>) { unimplemented!() } }   // Iterator::next (+ map_err)
+impl ReadDir { #[verifier::external_body] pub fn next_entry(&mut self) -> (r: Option<Result<DirEntry, CompilationError>>) ensures r matches Some(Err(e)) ==> e is Compile { unimplemented!() } }   // Iterator::next (+ map_err)
 impl DirEntry { #[verifier::external_body] pub fn path(&self) -> (r: PathBuf) { unimplemented!() } }
-#[verifier::external_body] pub fn fs_read_dir(dir: &PathBuf) -> (r: Result<ReadDir, CompilationError>) { unimplemented!() }    // fs::read_dir(..).map_err(..)
+#[verifier::external_body] pub fn fs_read_dir(dir: &PathBuf) -> (r: Result<ReadDir, CompilationError>) ensures r matches Err(e) ==> e is Compile { unimplemented!() }    // fs::read_dir(..).map_err(..)
 #[verifier::external_body] pub fn has_gom_extension(p: &PathBuf) -> (r: bool) { unimplemented!() }                            // path.extension().is_some_and(|ext| ext == "gom")
 // the sequence is in the (total) order of PathBuf: its order is a function of its contents
 pub uninterp spec fn paths_sorted(s: Seq<PathBuf>) -> bool;
